@@ -860,6 +860,7 @@ class Parser:
                 not_token.value += temp_node.whitespaces.value + in_token.value
                 operator = self.create_node(SymbolNode, not_token)
                 return self.create_node(ComparisonNode, 'not in', left, operator, self.e5())
+            raise ParseException(f'Expecting in got {self.current.tid}.', self.getline(), self.current.lineno, self.current.colno)
         return left
 
     def e5(self) -> BaseNode:
